@@ -36,6 +36,7 @@ type Bit struct {
 	K   BitKind
 	Src string
 	Idx int
+	Neg bool // In only: the complement of the input bit
 }
 
 func (b Bit) String() string {
@@ -45,6 +46,9 @@ func (b Bit) String() string {
 	case One:
 		return "1"
 	case In:
+		if b.Neg {
+			return fmt.Sprintf("!%s.%d", b.Src, b.Idx)
+		}
 		return fmt.Sprintf("%s.%d", b.Src, b.Idx)
 	}
 	return "?"
@@ -64,11 +68,22 @@ type Val struct {
 	Cell    *Array
 	CellIdx int
 	IsPtr   bool
+	// pointers to a cell of a scalar or struct object
+	Ref  *Obj
+	Path string
 	// opaque non-integer values (errors): Nil reports a nil constant
 	Opaque bool
 	Nil    bool
 	Tuple  []Val
 }
+
+// Obj is a scalar or struct object: one abstract value per field path ("" for a scalar, ".F", ".F.G").
+type Obj struct {
+	Cells map[string]Val
+}
+
+// NewObj allocates an object whose cells all hold their zero value.
+func NewObj() *Obj { return &Obj{Cells: map[string]Val{}} }
 
 // Array is a concrete-length byte array with abstract contents.
 type Array struct {
@@ -144,6 +159,10 @@ type undecided struct{ why string }
 
 func fail(format string, a ...interface{}) { panic(undecided{fmt.Sprintf(format, a...)}) }
 
+// ErrUnsupported is wrapped by the errors Run returns when the routine uses a construct the interpreter does
+// not model (as opposed to a branch or comparison that the case's abstract values do not decide).
+var ErrUnsupported = fmt.Errorf("construct not modelled")
+
 // Machine runs one function (and the module functions it calls statically) on abstract arguments.
 type Machine struct {
 	Steps int
@@ -155,7 +174,11 @@ func (m *Machine) Run(fn *ssa.Function, args []Val) (res Val, err error) {
 	defer func() {
 		if x := recover(); x != nil {
 			if u, ok := x.(undecided); ok {
-				err = fmt.Errorf("%s", u.why)
+				if strings.Contains(u.why, "not decide") || strings.Contains(u.why, "not fix") || strings.Contains(u.why, "out of range") || strings.Contains(u.why, "step budget") {
+					err = fmt.Errorf("%s", u.why)
+				} else {
+					err = fmt.Errorf("%s: %w", u.why, ErrUnsupported)
+				}
 				return
 			}
 			panic(x)
@@ -224,17 +247,27 @@ func (m *Machine) call(fn *ssa.Function, args []Val, depth int) Val {
 						env[x] = Val{Opaque: true}
 						break
 					}
+					if p.IsPtr && p.Ref != nil {
+						if v, ok := p.Ref.Cells[p.Path]; ok {
+							env[x] = v
+						} else {
+							env[x] = zeroOf(x.Type())
+						}
+						break
+					}
 					if !p.IsPtr || p.Cell == nil || p.CellIdx < 0 || p.CellIdx >= len(p.Cell.Elems) {
 						fail("%s: load through an untracked pointer at %s", fn.Name(), x.Name())
 					}
 					env[x] = p.Cell.Elems[p.CellIdx]
 				case token.NOT:
 					v := get(x.X)
-					c, ok := v.IsConst()
-					if !ok {
-						fail("%s: negation of an undecided condition", fn.Name())
+					if c, ok := v.IsConst(); ok {
+						env[x] = Const(1-c, 1)
+						break
 					}
-					env[x] = Const(1-c, 1)
+					r := Val{W: 1, Lo: 0, Hi: 1}
+					r.Bits[0] = notBit(v.Bits[0])
+					env[x] = r
 				default:
 					fail("%s: unary %s", fn.Name(), x.Op)
 				}
@@ -248,7 +281,8 @@ func (m *Machine) call(fn *ssa.Function, args []Val, depth int) Val {
 				t := x.Type().Underlying().(*types.Pointer).Elem().Underlying()
 				arr, ok := t.(*types.Array)
 				if !ok {
-					fail("%s: allocation of %s", fn.Name(), t)
+					env[x] = Val{IsPtr: true, Ref: NewObj()} // a scalar or struct: cells are created on first store
+					break
 				}
 				a := &Array{Elems: make([]Val, arr.Len())}
 				for i := range a.Elems {
@@ -296,6 +330,13 @@ func (m *Machine) call(fn *ssa.Function, args []Val, depth int) Val {
 					fail("%s: slice bounds out of range in this case", fn.Name())
 				}
 				env[x] = Val{IsSlice: true, Arr: arr, Off: off + lo, Len: hi - lo}
+			case *ssa.FieldAddr:
+				base := get(x.X)
+				if !base.IsPtr || base.Ref == nil {
+					fail("%s: field of an untracked object", fn.Name())
+				}
+				st := x.X.Type().Underlying().(*types.Pointer).Elem().Underlying().(*types.Struct)
+				env[x] = Val{IsPtr: true, Ref: base.Ref, Path: base.Path + "." + st.Field(x.Field).Name()}
 			case *ssa.IndexAddr:
 				base := get(x.X)
 				n, ok := get(x.Index).IsConst()
@@ -318,6 +359,13 @@ func (m *Machine) call(fn *ssa.Function, args []Val, depth int) Val {
 				}
 			case *ssa.Store:
 				p := get(x.Addr)
+				if p.IsPtr && p.Ref != nil {
+					if _, isStruct := x.Val.Type().Underlying().(*types.Struct); isStruct {
+						fail("%s: store of a whole struct", fn.Name())
+					}
+					p.Ref.Cells[p.Path] = get(x.Val)
+					break
+				}
 				if !p.IsPtr || p.Cell == nil || p.CellIdx < 0 {
 					fail("%s: store through an untracked pointer", fn.Name())
 				}
@@ -331,6 +379,22 @@ func (m *Machine) call(fn *ssa.Function, args []Val, depth int) Val {
 							fail("%s: len of an untracked value", fn.Name())
 						}
 						env[x] = Const(uint64(a.Len), 64)
+					case "append":
+						// append(a, b...) of byte slices with lengths fixed by the case: a fresh array holding both
+						dst, src := get(x.Call.Args[0]), Val{IsSlice: true, Arr: &Array{}}
+						if len(x.Call.Args) > 1 {
+							src = get(x.Call.Args[1])
+						}
+						if dst.Opaque && dst.Nil {
+							dst = Val{IsSlice: true, Arr: &Array{}}
+						}
+						if !dst.IsSlice || !src.IsSlice {
+							fail("%s: append to an untracked value", fn.Name())
+						}
+						na := &Array{}
+						na.Elems = append(na.Elems, dst.Arr.Elems[dst.Off:dst.Off+dst.Len]...)
+						na.Elems = append(na.Elems, src.Arr.Elems[src.Off:src.Off+src.Len]...)
+						env[x] = Val{IsSlice: true, Arr: na, Len: len(na.Elems)}
 					default:
 						fail("%s: builtin %s", fn.Name(), bi.Name())
 					}
@@ -465,6 +529,19 @@ func convert(v Val, t types.Type) Val {
 	return r.normalize()
 }
 
+func notBit(a Bit) Bit {
+	switch a.K {
+	case Zero:
+		return Bit{K: One}
+	case One:
+		return Bit{}
+	case In:
+		a.Neg = !a.Neg
+		return a
+	}
+	return Bit{K: Top}
+}
+
 func andBit(a, b Bit) Bit {
 	switch {
 	case a.K == Zero || b.K == Zero:
@@ -475,6 +552,8 @@ func andBit(a, b Bit) Bit {
 		return a
 	case a == b:
 		return a
+	case a.K == In && b.K == In && a.Src == b.Src && a.Idx == b.Idx && a.Neg != b.Neg:
+		return Bit{}
 	}
 	return Bit{K: Top}
 }
@@ -630,6 +709,42 @@ func binop(x *ssa.BinOp, a, b Val) Val {
 			}
 		}
 		if !known {
+			// all positions agree as constants except one, where one side is an input bit and the other a
+			// constant: the comparison *is* that bit (or its complement) — a symbolic boolean, not a branch
+			diff, nd := -1, 0
+			for i := 0; i < 64; i++ {
+				ai, bi := a.Bits[i], b.Bits[i]
+				if ai.K <= One && bi.K <= One && ai.K == bi.K {
+					continue
+				}
+				if ai == bi && ai.K == In {
+					continue
+				}
+				nd++
+				diff = i
+			}
+			if nd == 1 {
+				ai, bi := a.Bits[diff], b.Bits[diff]
+				var sym, cst Bit
+				switch {
+				case ai.K == In && bi.K <= One:
+					sym, cst = ai, bi
+				case bi.K == In && ai.K <= One:
+					sym, cst = bi, ai
+				default:
+					fail("comparison %s %s %s not decided by the case", x.X.Name(), x.Op, x.Y.Name())
+				}
+				eq := sym // equal iff sym == cst
+				if cst.K == Zero {
+					eq = notBit(sym)
+				}
+				if x.Op == token.NEQ {
+					eq = notBit(eq)
+				}
+				r := Val{W: 1, Lo: 0, Hi: 1}
+				r.Bits[0] = eq
+				return r
+			}
 			fail("comparison %s %s %s not decided by the case", x.X.Name(), x.Op, x.Y.Name())
 		}
 		if x.Op == token.NEQ {
@@ -681,3 +796,14 @@ func Octet(src string, top bool) Val {
 	}
 	return v.normalize()
 }
+
+// zeroOf is the zero value of a type as an abstract value.
+func zeroOf(t types.Type) Val {
+	if w := width(t); w > 0 {
+		return Const(0, w)
+	}
+	return Val{Opaque: true, Nil: true}
+}
+
+// Normalize recomputes the interval of a value built bit by bit.
+func Normalize(v Val) Val { return v.normalize() }
